@@ -3,8 +3,9 @@
     Lexer side (quil-rs/src/parser/lexer/mod.rs): [lex_number] = alt(binary, octal, hexadecimal,
     decimal).  The numbers themselves are read by the [lexical] crate configured by
     [number_format]: digit separator [_] allowed inside / after / repeatedly in every digit run
-    (and, as observed, also directly after a base prefix, after the decimal point -- the lexical
-    bug the lexer works around -- and at the start of the exponent digits), optional fraction,
+    (and, as observed, also directly after a base prefix and at the start of the exponent digits;
+    a separator directly after the decimal point ends the number at the point -- the lexer's
+    workaround for a lexical bug), optional fraction,
     optional exponent [e|E] [+|-] digits with at least one digit, no special values, partial
     parsing (the longest well-formed prefix is consumed and lexing continues right after it).
     The transliteration below is at byte level; it is tied to the real lexer by the exhaustive
@@ -81,14 +82,17 @@ Inductive nres :=
 | NFail.                       (* nom::Err::Failure: it was a number, but a bad one (cut) *)
 
 (** [raw_lex_integer] with a base prefix: peek the case-insensitive prefix, then the cut lexical
-    parse; a parse that consumed only the two prefix bytes is the EmptyInteger error. *)
+    parse; a parse that consumed no digit after the two prefix bytes (nothing, or separators
+    only) is the EmptyInteger error. *)
 Definition lex_prefixed (r p_lower : N) (l : list N) : nres :=
   match l with
   | c0 :: c1 :: t =>
       if (c0 =? c_0) && ((c1 =? p_lower) || (c1 =? p_lower - 32)) then
-        let '(ds, k, rest) := run r t in
-        if k =? 0 then NFail
-        else match acc_u64 r 0 ds with Some v => NOk (TInt v) rest | None => NFail end
+        let '(ds, _, rest) := run r t in
+        match ds with
+        | [] => NFail
+        | _ => match acc_u64 r 0 ds with Some v => NOk (TInt v) rest | None => NFail end
+        end
       else NErr
   | _ => NErr
   end.
@@ -115,62 +119,67 @@ Definition float_overflows (m : N) (e : Z) : bool :=
 
 Definition is_exp_char (c : N) : bool := (c =? c_e) || (c =? c_E).
 
-(** [parse_float]: lexical's partial f64 parse, the [._] workaround, the finiteness check.
-    Every error is a Failure (the call sits under [cut]). *)
+(** [parse_float]: the number is first cut right after a decimal point that is directly followed
+    by a separator (the lexer's workaround for lexical accepting a separator there), then
+    lexical's partial f64 parse, then the finiteness check.  Every error is a Failure (the call
+    sits under [cut]). *)
+Definition starts_with_sep (t : list N) : bool :=
+  match t with c' :: _ => c' =? c_US | [] => false end.
+
 Definition lex_float (l : list N) : nres :=
   let '(ids, _, r1) := run 10 l in
-  (* optional fraction *)
-  let '(has_dot, sep_after_dot, fds, r2) :=
-    match r1 with
-    | c :: t =>
-        if c =? c_DOT then
-          let '(fds, _, r2) := run 10 t in
-          (true, match t with c' :: _ => c' =? c_US | [] => false end, fds, r2)
-        else (false, false, [], r1)
-    | [] => (false, false, [], [])
-    end in
-  if (N.of_nat (length ids) + N.of_nat (length fds) =? 0) then NFail       (* EmptyMantissa *)
-  else
-    (* optional exponent: e|E, optional sign, digits (at least one) *)
-    let exp_part : option (option (bool * list N) * list N) :=
-      match r2 with
-      | c :: t =>
-          if is_exp_char c then
-            let '(neg, t') :=
-              match t with
-              | s :: t' => if s =? c_MINUS then (true, t') else if s =? c_PLUS then (false, t') else (false, t)
-              | [] => (false, t)
-              end in
-            let '(eds, _, r3) := run 10 t' in
-            match eds with
-            | [] => None                                                   (* EmptyExponent *)
-            | _ => Some (Some (neg, eds), r3)
+  match r1 with
+  | c :: t =>
+      if (c =? c_DOT) && starts_with_sep t then
+        (* cut: the number is the integer digits and the dot *)
+        match ids with
+        | [] => NFail                                                      (* EmptyMantissa *)
+        | _ =>
+            let m := horner 10 0 ids in
+            if float_overflows m 0 then NFail else NOk (TFloat m 0) t
+        end
+      else
+        (* optional fraction *)
+        let '(fds, r2) :=
+          if c =? c_DOT then let '(fds, _, r2) := run 10 t in (fds, r2) else ([], r1) in
+        match ids ++ fds with
+        | [] => NFail                                                      (* EmptyMantissa *)
+        | _ =>
+            (* optional exponent: e|E, optional sign, digits (at least one) *)
+            match r2 with
+            | c2 :: t2 =>
+                if is_exp_char c2 then
+                  let '(neg, t') :=
+                    match t2 with
+                    | s :: t' =>
+                        if s =? c_MINUS then (true, t') else if s =? c_PLUS then (false, t') else (false, t2)
+                    | [] => (false, t2)
+                    end in
+                  let '(eds, _, r3) := run 10 t' in
+                  match eds with
+                  | [] => NFail                                            (* EmptyExponent *)
+                  | _ =>
+                      let m := horner 10 0 (ids ++ fds) in
+                      let x := Z.of_N (horner 10 0 eds) in
+                      let e := ((if neg then - x else x) - Z.of_nat (length fds))%Z in
+                      if float_overflows m e then NFail else NOk (TFloat m e) r3
+                  end
+                else
+                  let m := horner 10 0 (ids ++ fds) in
+                  let e := (- Z.of_nat (length fds))%Z in
+                  if float_overflows m e then NFail else NOk (TFloat m e) r2
+            | [] =>
+                let m := horner 10 0 (ids ++ fds) in
+                let e := (- Z.of_nat (length fds))%Z in
+                if float_overflows m e then NFail else NOk (TFloat m e) []
             end
-          else Some (None, r2)
-      | [] => Some (None, [])
-      end in
-    match exp_part with
-    | None => NFail
-    | Some (ex, r3) =>
-        if has_dot && sep_after_dot then
-          (* workaround: re-parse only up to and including the dot *)
-          match ids with
-          | [] => NFail
-          | _ =>
-              let m := horner 10 0 ids in
-              if float_overflows m 0 then NFail
-              else NOk (TFloat m 0) (match r1 with _ :: t => t | [] => [] end)
-          end
-        else
-          let m := horner 10 0 (ids ++ fds) in
-          let ev : Z :=
-            match ex with
-            | Some (neg, eds) => let x := Z.of_N (horner 10 0 eds) in if neg then (- x)%Z else x
-            | None => 0%Z
-            end in
-          let e := (ev - Z.of_nat (length fds))%Z in
-          if float_overflows m e then NFail else NOk (TFloat m e) r3
-    end.
+        end
+  | [] =>
+      match ids with
+      | [] => NFail
+      | _ => let m := horner 10 0 ids in if float_overflows m 0 then NFail else NOk (TFloat m 0) []
+      end
+  end.
 
 (** [lex_decimal_number] *)
 Definition lex_decimal (l : list N) : nres :=
@@ -320,8 +329,8 @@ Inductive lexobs := LInt (v k : N) | LFloat (bits k : N) | LErr.
 
 Definition consumed (l rest : list N) : N := N.of_nat (length l) - N.of_nat (length rest).
 
-(** literals in which a base prefix is followed by separators only (no digit at all): the lexer
-    accepts them as 0 -- the known class [c05-prefix-without-digits] *)
+(** literals in which a base prefix is followed by separators only (no digit at all): they used
+    to lex as 0 (finding c05-prefix-without-digits, fixed); an accepted one is a violation *)
 Definition prefix_without_digits (l : list N) : bool :=
   match l with
   | c0 :: c1 :: t =>
